@@ -26,7 +26,7 @@ package geom
 //@   requires forall i int :: 0 <= i && i < len(coords1) ==> base(coords1[i]) != base(flatCoords) || base(flatCoords) == 0
 //@   ensures res2 != nil <==> exists i int :: 0 <= i && i < len(coords1) && len(coords1[i]) != stride
 //@   ensures res2 != nil ==> res1 == nil && istype(res2, ErrStrideMismatch) && unbox(res2, ErrStrideMismatch).Want == stride
-//@   ensures res2 == nil ==> len(res1) == len(flatCoords) + len(coords1) * stride
+//@   ensures res2 == nil ==> len(res1) == len(flatCoords) + mul(len(coords1), stride)
 //@   ensures res2 == nil ==> forall j int :: 0 <= j && j < len(flatCoords) ==> res1[j] == old(flatCoords[j])
 //@   ensures res2 == nil ==> forall i, k int :: 0 <= i && i < len(coords1) && 0 <= k && k < stride ==> res1[len(flatCoords) + i*stride + k] == coords1[i][k]
 //@   ensures res2 == nil ==> (fresh(res1) || (base(res1) == base(flatCoords) && off(res1) == off(flatCoords) && cap(res1) == cap(flatCoords)))
@@ -45,7 +45,8 @@ package geom
 //@   ensures res3 != nil ==> res1 == nil && res2 == nil && istype(res3, ErrStrideMismatch) && unbox(res3, ErrStrideMismatch).Want == stride
 //@   ensures res3 == nil ==> len(res2) == len(ends) + len(coords2)
 //@   ensures res3 == nil ==> forall i int :: 0 <= i && i < len(ends) ==> res2[i] == old(ends[i])
-//@   ensures res3 == nil ==> forall i int :: 0 <= i && i < len(coords2) ==> res2[len(ends)+i] == (i == 0 ? len(flatCoords) : res2[len(ends)+i-1]) + len(coords2[i]) * stride
+//@   ensures res3 == nil ==> forall i int :: 0 <= i && i < len(coords2) ==> res2[len(ends)+i] == (i == 0 ? len(flatCoords) : res2[len(ends)+i-1]) + mul(len(coords2[i]), stride)
+//@   ensures res3 == nil ==> forall i int :: 0 <= i && i < len(coords2) ==> len(flatCoords) <= res2[len(ends)+i] && res2[len(ends)+i] <= len(res1) && (i == 0 ? len(flatCoords) : res2[len(ends)+i-1]) <= res2[len(ends)+i]
 //@   ensures res3 == nil ==> len(res1) == (len(coords2) == 0 ? len(flatCoords) : res2[len(res2)-1])
 //@   ensures res3 == nil ==> forall j int :: 0 <= j && j < len(flatCoords) ==> res1[j] == old(flatCoords[j])
 //@   ensures res3 == nil ==> forall i, j, k int :: 0 <= i && i < len(coords2) && 0 <= j && j < len(coords2[i]) && 0 <= k && k < stride ==> res1[(i == 0 ? len(flatCoords) : res2[len(ends)+i-1]) + j*stride + k] == coords2[i][j][k]
@@ -56,8 +57,8 @@ package geom
 //@     invariant forall i, j int :: 0 <= i && i < idx && 0 <= j && j < len(coords2[i]) ==> len(coords2[i][j]) == stride
 //@     invariant len(ends) == len(ends0) + idx
 //@     invariant forall i int :: 0 <= i && i < len(ends0) ==> ends[i] == old(ends0[i])
-//@     invariant forall i int :: 0 <= i && i < idx ==> ends[len(ends0)+i] == (i == 0 ? len(flatCoords0) : ends[len(ends0)+i-1]) + len(coords2[i]) * stride
-//@     invariant forall i int :: 0 <= i && i < idx ==> len(flatCoords0) <= ends[len(ends0)+i] && ends[len(ends0)+i] <= len(flatCoords)
+//@     invariant forall i int :: 0 <= i && i < idx ==> ends[len(ends0)+i] == (i == 0 ? len(flatCoords0) : ends[len(ends0)+i-1]) + mul(len(coords2[i]), stride)
+//@     invariant forall i int :: 0 <= i && i < idx ==> len(flatCoords0) <= ends[len(ends0)+i] && ends[len(ends0)+i] <= len(flatCoords) && (i == 0 ? len(flatCoords0) : ends[len(ends0)+i-1]) <= ends[len(ends0)+i]
 //@     invariant len(flatCoords) == (idx == 0 ? len(flatCoords0) : ends[len(ends)-1])
 //@     invariant forall j int :: 0 <= j && j < len(flatCoords0) ==> flatCoords[j] == old(flatCoords0[j])
 //@     invariant forall i, j, k int :: 0 <= i && i < idx && 0 <= j && j < len(coords2[i]) && 0 <= k && k < stride ==> 0 <= j*stride + k && (i == 0 ? len(flatCoords0) : ends[len(ends0)+i-1]) + j*stride + k < ends[len(ends0)+i] && flatCoords[(i == 0 ? len(flatCoords0) : ends[len(ends0)+i-1]) + j*stride + k] == coords2[i][j][k]
@@ -65,27 +66,27 @@ package geom
 //@     invariant fresh(ends) || (base(ends) == base(ends0) && off(ends) == off(ends0) && cap(ends) == cap(ends0))
 
 //@ func inflate1
-//@   requires stride > 0 && 0 <= offset && offset <= end && end <= len(flatCoords)
-//@   ensures fresh(res) && len(res) * stride <= end - offset && end - offset < len(res) * stride + stride
+//@   requires stride >= 0 && 0 <= offset && offset <= end && end <= len(flatCoords)
+//@   ensures fresh(res) && len(res) * stride <= end - offset && (stride > 0 ==> end - offset < len(res) * stride + stride) && (stride == 0 ==> len(res) == 0)
 //@   ensures forall i int :: 0 <= i && i < len(res) ==> len(res[i]) == stride && fresh(res[i])
 //@   ensures forall i, k int :: 0 <= i && i < len(res) && 0 <= k && k < stride ==> 0 <= i*stride + k && offset + i*stride + k < end && res[i][k] == flatCoords[offset + i*stride + k]
 //@   loop 1:
-//@     invariant offset == offset0 + idx*stride
+//@     invariant stride > 0 && offset == offset0 + idx*stride
 //@     invariant len(coords1) * stride <= end - offset0 && end - offset0 < len(coords1) * stride + stride && fresh(coords1)
 //@     invariant forall i int :: 0 <= i && i < idx ==> len(coords1[i]) == stride && fresh(coords1[i])
 //@     invariant forall i, k int :: 0 <= i && i < idx && 0 <= k && k < stride ==> 0 <= i*stride + k && offset0 + i*stride + k < end && coords1[i][k] == flatCoords[offset0 + i*stride + k]
 
 //@ func inflate2
-//@   requires stride > 0 && 0 <= offset
+//@   requires stride >= 0 && 0 <= offset
 //@   requires forall i int :: 0 <= i && i < len(ends) ==> 0 <= ends[i] && (i == 0 ? offset : ends[i-1]) <= ends[i] && ends[i] <= len(flatCoords)
 //@   ensures fresh(res) && len(res) == len(ends)
-//@   ensures forall i int :: 0 <= i && i < len(res) ==> fresh(res[i]) && len(res[i]) * stride <= ends[i] - (i == 0 ? offset : ends[i-1]) && ends[i] - (i == 0 ? offset : ends[i-1]) < len(res[i]) * stride + stride
+//@   ensures forall i int :: 0 <= i && i < len(res) ==> fresh(res[i]) && len(res[i]) * stride <= ends[i] - (i == 0 ? offset : ends[i-1]) && (stride > 0 ==> ends[i] - (i == 0 ? offset : ends[i-1]) < len(res[i]) * stride + stride) && (stride == 0 ==> len(res[i]) == 0)
 //@   ensures forall i, j int :: 0 <= i && i < len(res) && 0 <= j && j < len(res[i]) ==> len(res[i][j]) == stride && fresh(res[i][j])
 //@   ensures forall i, j, k int :: 0 <= i && i < len(res) && 0 <= j && j < len(res[i]) && 0 <= k && k < stride ==> res[i][j][k] == flatCoords[(i == 0 ? offset : ends[i-1]) + j*stride + k]
 //@   loop 1:
 //@     invariant fresh(coords2) && len(coords2) == len(ends)
 //@     invariant offset == (idx == 0 ? offset0 : ends[idx-1])
-//@     invariant forall i int :: 0 <= i && i < idx ==> fresh(coords2[i]) && len(coords2[i]) * stride <= ends[i] - (i == 0 ? offset0 : ends[i-1]) && ends[i] - (i == 0 ? offset0 : ends[i-1]) < len(coords2[i]) * stride + stride
+//@     invariant forall i int :: 0 <= i && i < idx ==> fresh(coords2[i]) && len(coords2[i]) * stride <= ends[i] - (i == 0 ? offset0 : ends[i-1]) && (stride > 0 ==> ends[i] - (i == 0 ? offset0 : ends[i-1]) < len(coords2[i]) * stride + stride) && (stride == 0 ==> len(coords2[i]) == 0)
 //@     invariant forall i, j int :: 0 <= i && i < idx && 0 <= j && j < len(coords2[i]) ==> len(coords2[i][j]) == stride && fresh(coords2[i][j])
 //@     invariant forall i, j, k int :: 0 <= i && i < idx && 0 <= j && j < len(coords2[i]) && 0 <= k && k < stride ==> coords2[i][j][k] == flatCoords[(i == 0 ? offset0 : ends[i-1]) + j*stride + k]
 
@@ -123,3 +124,234 @@ package geom
 //@ func geom0.Coords
 //@   requires wf0(g) && len(g.flatCoords) == g.stride
 //@   ensures fresh(res) && len(res) == g.stride && forall k int :: 0 <= k && k < g.stride ==> res[k] == g.flatCoords[k]
+
+// ---------------------------------------------------------------------------
+// LineString / LinearRing (level 1)
+
+//@ func NewLineStringFlat
+//@   requires strideOf(layout) >= 0 && whole(len(flatCoords), strideOf(layout))
+//@   ensures fresh(res) && wf1(res) && res.layout == layout && res.flatCoords == flatCoords && res.srid == 0
+
+//@ func NewLineString
+//@   requires strideOf(l) >= 0
+//@   ensures fresh(res) && wf1(res) && res.layout == l && len(res.flatCoords) == 0 && res.srid == 0
+
+//@ func NewLinearRingFlat
+//@   requires strideOf(layout) >= 0 && whole(len(flatCoords), strideOf(layout))
+//@   ensures fresh(res) && wf1(res) && res.layout == layout && res.flatCoords == flatCoords && res.srid == 0
+
+//@ func NewLinearRing
+//@   requires strideOf(layout) >= 0
+//@   ensures fresh(res) && wf1(res) && res.layout == layout && len(res.flatCoords) == 0 && res.srid == 0
+
+//@ func geom1.setCoords
+//@   requires g.stride >= 0
+//@   ensures res != nil <==> exists i int :: 0 <= i && i < len(coords1) && len(coords1[i]) != g.stride
+//@   ensures res != nil ==> istype(res, ErrStrideMismatch) && unbox(res, ErrStrideMismatch).Want == g.stride
+//@   ensures res == nil ==> len(g.flatCoords) == mul(len(coords1), g.stride) && (fresh(g.flatCoords) || g.flatCoords == nil)
+//@   ensures res == nil ==> forall i, k int :: 0 <= i && i < len(coords1) && 0 <= k && k < g.stride ==> g.flatCoords[i*g.stride + k] == coords1[i][k]
+//@   ensures g.layout == old(g.layout) && g.stride == old(g.stride) && g.srid == old(g.srid)
+//@   modifies *g
+
+//@ func LineString.SetCoords
+//@   requires strideOK(g.layout, g.stride)
+//@   ensures res2 != nil <==> exists i int :: 0 <= i && i < len(coords) && len(coords[i]) != g.stride
+//@   ensures res2 != nil ==> res1 == nil && istype(res2, ErrStrideMismatch) && unbox(res2, ErrStrideMismatch).Want == g.stride
+//@   ensures res2 == nil ==> res1 == g && wf1(g) && len(g.flatCoords) == mul(len(coords), g.stride)
+//@   ensures res2 == nil ==> forall i, k int :: 0 <= i && i < len(coords) && 0 <= k && k < g.stride ==> g.flatCoords[i*g.stride + k] == coords[i][k]
+//@   ensures g.layout == old(g.layout) && g.stride == old(g.stride) && g.srid == old(g.srid)
+//@   modifies *g
+
+//@ func LinearRing.SetCoords
+//@   requires strideOK(g.layout, g.stride)
+//@   ensures res2 != nil <==> exists i int :: 0 <= i && i < len(coords) && len(coords[i]) != g.stride
+//@   ensures res2 != nil ==> res1 == nil && istype(res2, ErrStrideMismatch) && unbox(res2, ErrStrideMismatch).Want == g.stride
+//@   ensures res2 == nil ==> res1 == g && wf1(g) && len(g.flatCoords) == mul(len(coords), g.stride)
+//@   ensures res2 == nil ==> forall i, k int :: 0 <= i && i < len(coords) && 0 <= k && k < g.stride ==> g.flatCoords[i*g.stride + k] == coords[i][k]
+//@   ensures g.layout == old(g.layout) && g.stride == old(g.stride) && g.srid == old(g.srid)
+//@   modifies *g
+
+//@ func geom1.Coords
+//@   requires wf1(g)
+//@   ensures fresh(res) && mul(len(res), g.stride) == len(g.flatCoords)
+//@   ensures forall i int :: 0 <= i && i < len(res) ==> len(res[i]) == g.stride && fresh(res[i])
+//@   ensures forall i, k int :: 0 <= i && i < len(res) && 0 <= k && k < g.stride ==> res[i][k] == g.flatCoords[i*g.stride + k]
+
+// ---------------------------------------------------------------------------
+// level 2: Polygon, MultiLineString
+
+//@ func geom2.setCoords
+//@   requires g.stride >= 0
+//@   ensures res != nil <==> exists i, j int :: 0 <= i && i < len(coords2) && 0 <= j && j < len(coords2[i]) && len(coords2[i][j]) != g.stride
+//@   ensures res != nil ==> istype(res, ErrStrideMismatch) && unbox(res, ErrStrideMismatch).Want == g.stride
+//@   ensures res == nil ==> len(g.ends) == len(coords2) && endsOK(g.ends, len(g.flatCoords), g.stride)
+//@   ensures res == nil ==> forall i int :: 0 <= i && i < len(coords2) ==> g.ends[i] == (i == 0 ? 0 : g.ends[i-1]) + mul(len(coords2[i]), g.stride)
+//@   ensures res == nil ==> forall i, j, k int :: 0 <= i && i < len(coords2) && 0 <= j && j < len(coords2[i]) && 0 <= k && k < g.stride ==> g.flatCoords[(i == 0 ? 0 : g.ends[i-1]) + j*g.stride + k] == coords2[i][j][k]
+//@   ensures g.layout == old(g.layout) && g.stride == old(g.stride) && g.srid == old(g.srid)
+//@   modifies *g
+
+//@ func NewPolygonFlat
+//@   requires strideOf(layout) >= 0 && endsOK(ends, len(flatCoords), strideOf(layout))
+//@   ensures fresh(res) && wf2(res) && res.layout == layout && res.flatCoords == flatCoords && res.ends == ends && res.srid == 0
+
+//@ func NewPolygon
+//@   requires strideOf(layout) >= 0
+//@   ensures fresh(res) && wf2(res) && res.layout == layout && len(res.flatCoords) == 0 && len(res.ends) == 0 && res.srid == 0
+
+//@ func NewMultiLineStringFlat
+//@   requires strideOf(layout) >= 0 && endsOK(ends, len(flatCoords), strideOf(layout))
+//@   ensures fresh(res) && wf2(res) && res.layout == layout && res.flatCoords == flatCoords && res.ends == ends && res.srid == 0
+
+//@ func NewMultiLineString
+//@   requires strideOf(layout) >= 0
+//@   ensures fresh(res) && wf2(res) && res.layout == layout && len(res.flatCoords) == 0 && len(res.ends) == 0 && res.srid == 0
+
+//@ func Polygon.SetCoords
+//@   requires strideOK(g.layout, g.stride)
+//@   ensures res2 != nil <==> exists i, j int :: 0 <= i && i < len(coords) && 0 <= j && j < len(coords[i]) && len(coords[i][j]) != g.stride
+//@   ensures res2 != nil ==> res1 == nil && istype(res2, ErrStrideMismatch) && unbox(res2, ErrStrideMismatch).Want == g.stride
+//@   ensures res2 == nil ==> res1 == g && wf2(g) && len(g.ends) == len(coords)
+//@   ensures res2 == nil ==> forall i int :: 0 <= i && i < len(coords) ==> g.ends[i] == (i == 0 ? 0 : g.ends[i-1]) + mul(len(coords[i]), g.stride)
+//@   ensures res2 == nil ==> forall i, j, k int :: 0 <= i && i < len(coords) && 0 <= j && j < len(coords[i]) && 0 <= k && k < g.stride ==> g.flatCoords[(i == 0 ? 0 : g.ends[i-1]) + j*g.stride + k] == coords[i][j][k]
+//@   ensures g.layout == old(g.layout) && g.stride == old(g.stride) && g.srid == old(g.srid)
+//@   modifies *g
+
+//@ func MultiLineString.SetCoords
+//@   requires strideOK(g.layout, g.stride)
+//@   ensures res2 != nil <==> exists i, j int :: 0 <= i && i < len(coords) && 0 <= j && j < len(coords[i]) && len(coords[i][j]) != g.stride
+//@   ensures res2 != nil ==> res1 == nil && istype(res2, ErrStrideMismatch) && unbox(res2, ErrStrideMismatch).Want == g.stride
+//@   ensures res2 == nil ==> res1 == g && wf2(g) && len(g.ends) == len(coords)
+//@   ensures res2 == nil ==> forall i int :: 0 <= i && i < len(coords) ==> g.ends[i] == (i == 0 ? 0 : g.ends[i-1]) + mul(len(coords[i]), g.stride)
+//@   ensures res2 == nil ==> forall i, j, k int :: 0 <= i && i < len(coords) && 0 <= j && j < len(coords[i]) && 0 <= k && k < g.stride ==> g.flatCoords[(i == 0 ? 0 : g.ends[i-1]) + j*g.stride + k] == coords[i][j][k]
+//@   ensures g.layout == old(g.layout) && g.stride == old(g.stride) && g.srid == old(g.srid)
+//@   modifies *g
+
+//@ func geom2.Coords
+//@   requires wf2(g)
+//@   ensures fresh(res) && len(res) == len(g.ends)
+//@   ensures forall i int :: 0 <= i && i < len(res) ==> fresh(res[i]) && mul(len(res[i]), g.stride) == g.ends[i] - (i == 0 ? 0 : g.ends[i-1])
+//@   ensures forall i, j int :: 0 <= i && i < len(res) && 0 <= j && j < len(res[i]) ==> len(res[i][j]) == g.stride && fresh(res[i][j])
+//@   ensures forall i, j, k int :: 0 <= i && i < len(res) && 0 <= j && j < len(res[i]) && 0 <= k && k < g.stride ==> res[i][j][k] == g.flatCoords[(i == 0 ? 0 : g.ends[i-1]) + j*g.stride + k]
+
+// ---------------------------------------------------------------------------
+// C02: parts of Polygon and MultiLineString.  part i of g is flatCoords[start_i : ends[i]) with
+// start_i = (i == 0 ? 0 : ends[i-1]).
+
+//@ func Polygon.Push
+//@   requires wf2(g) && lr != nil && wf1(lr)
+//@   ensures lr.layout != old(g.layout) ==> res != nil && istype(res, ErrLayoutMismatch) && unbox(res, ErrLayoutMismatch).Got == lr.layout && unbox(res, ErrLayoutMismatch).Want == old(g.layout)
+//@   ensures lr.layout != old(g.layout) ==> g.flatCoords == old(g.flatCoords) && g.ends == old(g.ends)
+//@   ensures lr.layout == old(g.layout) ==> res == nil && wf2(g) && len(g.ends) == old(len(g.ends)) + 1 && len(g.flatCoords) == old(len(g.flatCoords)) + len(lr.flatCoords)
+//@   ensures lr.layout == old(g.layout) ==> g.ends[len(g.ends)-1] == len(g.flatCoords) && forall i int :: 0 <= i && i < old(len(g.ends)) ==> g.ends[i] == old(g.ends[i])
+//@   ensures lr.layout == old(g.layout) ==> forall j int :: 0 <= j && j < old(len(g.flatCoords)) ==> g.flatCoords[j] == old(g.flatCoords[j])
+//@   ensures lr.layout == old(g.layout) ==> forall j int :: 0 <= j && j < len(lr.flatCoords) ==> g.flatCoords[old(len(g.flatCoords)) + j] == old(lr.flatCoords[j])
+//@   ensures g.layout == old(g.layout) && g.stride == old(g.stride) && g.srid == old(g.srid)
+//@   modifies *g, spare(g.flatCoords), spare(g.ends)
+
+//@ func MultiLineString.Push
+//@   requires wf2(g) && ls != nil && wf1(ls)
+//@   ensures ls.layout != old(g.layout) ==> res != nil && istype(res, ErrLayoutMismatch) && unbox(res, ErrLayoutMismatch).Got == ls.layout && unbox(res, ErrLayoutMismatch).Want == old(g.layout)
+//@   ensures ls.layout != old(g.layout) ==> g.flatCoords == old(g.flatCoords) && g.ends == old(g.ends)
+//@   ensures ls.layout == old(g.layout) ==> res == nil && wf2(g) && len(g.ends) == old(len(g.ends)) + 1 && len(g.flatCoords) == old(len(g.flatCoords)) + len(ls.flatCoords)
+//@   ensures ls.layout == old(g.layout) ==> g.ends[len(g.ends)-1] == len(g.flatCoords) && forall i int :: 0 <= i && i < old(len(g.ends)) ==> g.ends[i] == old(g.ends[i])
+//@   ensures ls.layout == old(g.layout) ==> forall j int :: 0 <= j && j < old(len(g.flatCoords)) ==> g.flatCoords[j] == old(g.flatCoords[j])
+//@   ensures ls.layout == old(g.layout) ==> forall j int :: 0 <= j && j < len(ls.flatCoords) ==> g.flatCoords[old(len(g.flatCoords)) + j] == old(ls.flatCoords[j])
+//@   ensures g.layout == old(g.layout) && g.stride == old(g.stride) && g.srid == old(g.srid)
+//@   modifies *g, spare(g.flatCoords), spare(g.ends)
+
+//@ func Polygon.LinearRing
+//@   requires wf2(g) && 0 <= i && i < len(g.ends)
+//@   ensures fresh(res) && wf1(res) && res.layout == g.layout
+//@   ensures len(res.flatCoords) == g.ends[i] - (i == 0 ? 0 : g.ends[i-1])
+//@   ensures forall j int :: 0 <= j && j < len(res.flatCoords) ==> res.flatCoords[j] == g.flatCoords[(i == 0 ? 0 : g.ends[i-1]) + j]
+
+//@ func MultiLineString.LineString
+//@   requires wf2(g) && 0 <= i && i < len(g.ends)
+//@   ensures fresh(res) && wf1(res) && res.layout == g.layout
+//@   ensures len(res.flatCoords) == g.ends[i] - (i == 0 ? 0 : g.ends[i-1])
+//@   ensures forall j int :: 0 <= j && j < len(res.flatCoords) ==> res.flatCoords[j] == g.flatCoords[(i == 0 ? 0 : g.ends[i-1]) + j]
+
+//@ func Polygon.NumLinearRings
+//@   ensures res == len(g.ends)
+
+//@ func MultiLineString.NumLineStrings
+//@   ensures res == len(g.ends)
+
+// ---------------------------------------------------------------------------
+// MultiPoint: part i is empty or exactly one coordinate
+
+//@ func NewMultiPointFlat
+//@   lemmas mulCancel
+//@   requires len(opts) == 0
+//@   requires strideOf(layout) >= 0 && whole(len(flatCoords), strideOf(layout))
+//@   ensures fresh(res) && wfMP(res) && res.layout == layout && res.flatCoords == flatCoords && res.srid == 0
+//@   ensures mul(len(res.ends), strideOf(layout)) == len(flatCoords) && (len(flatCoords) == 0 ==> res.ends == nil)
+//@   ensures forall i int :: 0 <= i && i < len(res.ends) ==> res.ends[i] == (i+1) * strideOf(layout)
+//@   at loop2.before: assert g.stride == strideOf(layout) && g.stride > 0
+//@   at loop2.before: assert whole(len(flatCoords), g.stride)
+//@   loop 1:
+//@     unreachable
+//@   loop 2:
+//@     invariant g.stride > 0 && len(g.ends) == numCoords && fresh(g.ends) && g.stride == strideOf(layout) && g.layout == layout && g.flatCoords == flatCoords && g.srid == 0 && fresh(g)
+//@     invariant mul(numCoords, g.stride) == len(flatCoords)
+//@     invariant forall i int :: 0 <= i && i < idx ==> g.ends[i] == (i+1) * g.stride
+
+//@ func NewMultiPoint
+//@   requires strideOf(layout) >= 0
+//@   ensures fresh(res) && wfMP(res) && res.layout == layout && len(res.flatCoords) == 0 && len(res.ends) == 0
+
+//@ func MultiPoint.SetCoords
+//@   requires strideOK(g.layout, g.stride)
+//@   ensures res2 != nil <==> exists i int :: 0 <= i && i < len(coords) && coords[i] != nil && len(coords[i]) != g.stride
+//@   ensures res2 != nil ==> res1 == nil && istype(res2, ErrStrideMismatch) && unbox(res2, ErrStrideMismatch).Want == g.stride
+//@   ensures res2 == nil ==> res1 == g && wfMP(g) && len(g.ends) == len(coords)
+//@   ensures res2 == nil ==> forall i int :: 0 <= i && i < len(coords) ==> g.ends[i] == (i == 0 ? 0 : g.ends[i-1]) + (coords[i] == nil ? 0 : g.stride)
+//@   ensures res2 == nil ==> forall i, k int :: 0 <= i && i < len(coords) && coords[i] != nil && 0 <= k && k < g.stride ==> g.flatCoords[(i == 0 ? 0 : g.ends[i-1]) + k] == coords[i][k]
+//@   ensures g.layout == old(g.layout) && g.stride == old(g.stride) && g.srid == old(g.srid)
+//@   modifies *g
+//@   loop 1:
+//@     invariant g.layout == old(g.layout) && g.stride == old(g.stride) && g.srid == old(g.srid)
+//@     invariant len(g.ends) == idx && (fresh(g.ends) || g.ends == nil) && (fresh(g.flatCoords) || g.flatCoords == nil)
+//@     invariant forall i int :: 0 <= i && i < idx && coords[i] != nil ==> len(coords[i]) == g.stride
+//@     invariant len(g.flatCoords) == (idx == 0 ? 0 : g.ends[idx-1])
+//@     invariant forall i int :: 0 <= i && i < idx ==> g.ends[i] == (i == 0 ? 0 : g.ends[i-1]) + (coords[i] == nil ? 0 : g.stride)
+//@     invariant forall i int :: 0 <= i && i < idx ==> 0 <= g.ends[i] && g.ends[i] <= len(g.flatCoords)
+//@     invariant forall i, k int :: 0 <= i && i < idx && coords[i] != nil && 0 <= k && k < g.stride ==> g.flatCoords[(i == 0 ? 0 : g.ends[i-1]) + k] == coords[i][k]
+
+//@ func MultiPoint.Coords
+//@   requires wfMP(g)
+//@   ensures fresh(res) && len(res) == len(g.ends)
+//@   ensures forall i int :: 0 <= i && i < len(res) ==> (g.ends[i] == (i == 0 ? 0 : g.ends[i-1]) ==> res[i] == nil) && (g.ends[i] != (i == 0 ? 0 : g.ends[i-1]) ==> len(res[i]) == g.stride && fresh(res[i]))
+//@   ensures forall i, k int :: 0 <= i && i < len(res) && g.ends[i] != (i == 0 ? 0 : g.ends[i-1]) && 0 <= k && k < g.stride ==> res[i][k] == g.flatCoords[(i == 0 ? 0 : g.ends[i-1]) + k]
+//@   loop 1:
+//@     invariant fresh(coords1) && len(coords1) == len(g.ends)
+//@     invariant prevEnd == (idx == 0 ? 0 : g.ends[idx-1]) && offset == prevEnd
+//@     invariant forall i int :: 0 <= i && i < idx && g.ends[i] == (i == 0 ? 0 : g.ends[i-1]) ==> coords1[i] == nil
+//@     invariant forall i int :: 0 <= i && i < idx && g.ends[i] != (i == 0 ? 0 : g.ends[i-1]) ==> len(coords1[i]) == g.stride && fresh(coords1[i])
+//@     invariant forall i int :: idx <= i && i < len(coords1) ==> coords1[i] == nil
+//@     invariant forall i, k int :: 0 <= i && i < idx && g.ends[i] != (i == 0 ? 0 : g.ends[i-1]) && 0 <= k && k < g.stride ==> coords1[i][k] == g.flatCoords[(i == 0 ? 0 : g.ends[i-1]) + k]
+
+//@ func MultiPoint.Coord
+//@   requires wfMP(g) && 0 <= i && i < len(g.ends)
+//@   ensures g.ends[i] == (i == 0 ? 0 : g.ends[i-1]) ==> res == nil
+//@   ensures g.ends[i] != (i == 0 ? 0 : g.ends[i-1]) ==> len(res) == g.stride && base(res) == base(g.flatCoords) && off(res) == off(g.flatCoords) + (i == 0 ? 0 : g.ends[i-1])
+
+//@ func MultiPoint.Point
+//@   requires wfMP(g) && 0 <= i && i < len(g.ends)
+//@   ensures fresh(res) && wf0(res) && res.layout == g.layout
+//@   ensures len(res.flatCoords) == g.ends[i] - (i == 0 ? 0 : g.ends[i-1])
+//@   ensures forall k int :: 0 <= k && k < len(res.flatCoords) ==> res.flatCoords[k] == g.flatCoords[(i == 0 ? 0 : g.ends[i-1]) + k]
+
+//@ func MultiPoint.NumPoints
+//@   ensures res == len(g.ends)
+
+//@ func MultiPoint.Push
+//@   requires wfMP(g) && p != nil && wf0(p)
+//@   ensures p.layout != old(g.layout) ==> res != nil && istype(res, ErrLayoutMismatch) && unbox(res, ErrLayoutMismatch).Got == p.layout && unbox(res, ErrLayoutMismatch).Want == old(g.layout)
+//@   ensures p.layout != old(g.layout) ==> g.flatCoords == old(g.flatCoords) && g.ends == old(g.ends)
+//@   ensures p.layout == old(g.layout) ==> res == nil && wfMP(g) && len(g.ends) == old(len(g.ends)) + 1 && len(g.flatCoords) == old(len(g.flatCoords)) + len(p.flatCoords)
+//@   ensures p.layout == old(g.layout) ==> g.ends[len(g.ends)-1] == len(g.flatCoords) && forall i int :: 0 <= i && i < old(len(g.ends)) ==> g.ends[i] == old(g.ends[i])
+//@   ensures p.layout == old(g.layout) ==> forall j int :: 0 <= j && j < old(len(g.flatCoords)) ==> g.flatCoords[j] == old(g.flatCoords[j])
+//@   ensures p.layout == old(g.layout) ==> forall j int :: 0 <= j && j < len(p.flatCoords) ==> g.flatCoords[old(len(g.flatCoords)) + j] == old(p.flatCoords[j])
+//@   ensures g.layout == old(g.layout) && g.stride == old(g.stride) && g.srid == old(g.srid)
+//@   modifies *g, spare(g.flatCoords), spare(g.ends)
